@@ -34,6 +34,7 @@ THEOREMS = [
     "C04_direction_unit",
     "C04_streamline_algebraic",
     "C04_streamline_invariant",
+    "C04_streamline_constant",
 ]
 
 CODES = {0: "agree", 100: "ambiguous", 9: "constants", 1: "number of axis nodes", 2: "stopping-rate arguments",
@@ -100,7 +101,7 @@ def run(ctx):
     ctx.trusted += [
         "Coq 8.16.1 kernel, vm_compute (no native_compute)",
         "Coq standard-library real-number axioms (ClassicalDedekindReals.sig_forall_dec, sig_not_dec, "
-        "functional_extensionality_dep) under C04_streamline_invariant only (Coquelicot derivative); every other theorem is "
+        "functional_extensionality_dep, classic) under C04_streamline_invariant / C04_streamline_constant only (Coquelicot); every other theorem is "
         "closed under the global context",
         "harness/c04.py + c04_impl.py: scene builder, stub species/rates (uniform, linear, step profiles; constant/affine rates), "
         "Q literal printer, comparator Model/C04_Check.v",
@@ -124,8 +125,15 @@ def run(ctx):
     assert list(cherab.__path__) == [REPO + "/cherab"], cherab.__path__
 
     rng = ctx.rng
-    n_cases = 40 if ctx.quick else 600
+    n_cases = 40 if ctx.quick else 400
     cases = impl.corpus_cases() + [impl.gen_case(rng, i) for i in range(n_cases)]
+    if ctx.replay:
+        # re-run the single configuration stored in a replay file (correspondence + thorough search)
+        import json
+        rp = json.load(open(ctx.replay))["replay"]
+        rc = rp.get("case", rp)
+        rc.setdefault("classes", ["replay"])
+        cases = [rc]
     outs = []
     key_fail = []
     for i, case in enumerate(cases):
@@ -189,7 +197,7 @@ def run(ctx):
     raised = [dict(e, case=c) for c, o in zip(cases, outs) for e in o["errors"]]
     ctx.obligation("Beam.density / Beam.direction raise nothing on valid inputs (%d cases)" % len(cases), "search", not raised,
                    str(raised[:2]))
-    for e in raised[:2]:
+    for e in raised[:1]:
         ctx.violation("c04-raise:%s" % e["call"], "Beam.%s raised %s at the point %s" % (e["call"], e["exception"], e["point"]),
                       e, found=True)
     for kf in key_fail[:1]:
@@ -221,16 +229,16 @@ def run(ctx):
                              rate_calls=sum(len(o["args"]) for o in outs),
                              nodes_min=min(o["n_nodes"] for o in outs), nodes_max=max(o["n_nodes"] for o in outs),
                              ambiguous_cases=len(amb_cases), ambiguous_probes=amb_probes, search_configurations=n_search),
-        "tolerance": {"rate arguments / coefficients": "2^-40 relative", "density": "2^-36 relative; zero-set exact",
+        "tolerance": {"rate arguments / coefficients": "2^-40 relative", "density": "2^-36 relative + 2^-46 of the larger node value of the interpolation segment (cancellation in raysect's y0+(y1-y0)t, measured 3.9e-11 relative at the end of a segment with optical depth 13); zero-set exact",
                       "direction": "unit length 2^-45, parallel 2^-40", "sqrt table": "verified in Coq to 2^-48",
                       "exp table key": "2^-46 (1+|x|)", "ambiguity margin": "2^-30 (clamp radius, step profile), 2^-40 (node count)",
                       "search": "flux 1e-7 + discretisation allowance; monotone 1e-12; streamline 1e-7"},
         "partial": ["C04_flux_partial / C04_flux_no_stopping_partial: the cross-section integral is an abstract functional with "
                     "the change-of-variables law and the Gaussian normalisation as hypotheses (analytic facts not proved)",
-                    "C04_streamline_invariant is stated over R for the direction formula transcribed from the model "
+                    "C04_streamline_invariant / C04_streamline_constant are stated over R for the direction formula transcribed from the model "
                     "(C04_streamline_algebraic is the same fact over the model in Q)",
                     "the integral of S is the trapezoid sum on the attenuator's nodes; between nodes raysect's linear "
                     "interpolation is modelled, not verified"],
     })
-    ctx.coverage["samples"] = [cases[len(impl.corpus_cases())], cases[-1]]
+    ctx.coverage["samples"] = [cases[min(len(impl.corpus_cases()), len(cases) - 1)], cases[-1]]
     ctx.grep_gate()
